@@ -700,6 +700,11 @@ func sendMail(addr string, implicitTLS bool, a sasl.Client, from string, to []st
 	defer c.Close()
 
 	if a != nil {
+		// Extension reports a failed EHLO as "not supported": the server's
+		// own error must not be hidden behind that.
+		if err = c.hello(); err != nil {
+			return err
+		}
 		if ok, _ := c.Extension("AUTH"); !ok {
 			return errors.New("smtp: server doesn't support AUTH")
 		}
